@@ -58,6 +58,17 @@ add('C08', 'model_checking',
     "Same exploration restricted to the 5 shipped JSON recipes (loaded unchanged) and recipe.dynamic_wi8_afp32(); obligation on every feasible path: no exception escapes parameter generation + graph rewrite. The data-dependent forks (equal vs different parameters between a tensor and its CONCATENATION / fixed-range neighbour) are exactly what one calibration run cannot cover.",
     'Assumes: bounded skeleton family (31 single-op kinds + 23 topologies: chains, diamond, multi-consumer tensors, intermediate tensors exported as outputs, producer at index 0, repeated operands, concatenation of a shared tensor, unsupported op between supported ones, shared constants/buffers, two signatures) x recipe family; statistics symbolic; FlatBuffers builder intercepted (captured ModelT is inspected; replays go through the real bytes); LiteRT allocate/invoke is FFI and outside the claim.' + " calibrate() itself is not run here (statistics are assumed arbitrary; C09/C10 cover calibration).", 'symbolic execution of the real ParamsGenerator/instruction generator/performer on symbolic statistics (UF back end, z3 QF_UFBV decides path feasibility), bit-precise concretisation (QF_FP) of counterexamples, replay through Quantizer.quantize()', 'DESIGN.md 3/C08')
 
+add('C15', 'model_checking',
+    "Pipeline exploration on skeletons with tied constants (one constant tensor with 2-3 consumers, two/three tensors on one buffer within a subgraph and across subgraphs) x EVERY assignment of {no-quant, weight-only 8/4 bit, dynamic-range, static-range, float16} to the sharers, activation statistics symbolic; if no exception escapes, an independent byte-level decoder checks for every constant that buffer length matches tensor dtype/shape, that decoding the stored bytes with the tensor's own parameters reproduces the ORIGINAL constant within one step (i.e. quantized once, not re-quantized or reinterpreted), that all tensors on one buffer agree on dtype/parameters, and (C03 oracle) that float consumers read float tensors and integer consumers integer tensors.",
+    "Assumes: constants concrete here (symbolic constant contents are C05); bounded sharer patterns above; FlatBuffers builder intercepted; interpreter behaviour FFI.",
+    "symbolic execution of the real pipeline over symbolic statistics (UF, z3) for every mode assignment; independent decoder as byte-level oracle; replay through Quantizer.quantize()",
+    'DESIGN.md 3/C15')
+add('C19', 'model_checking',
+    "On ONE engine path the real pipeline runs on a 2-subgraph (thorough: 3) model and on the single-subgraph models made of its subgraphs with the SAME symbolic statistics; structure (operators, wiring, dtypes, names, I/O, quantized dimension) is compared concretely per path and z3 decides equality of the symbolic scale/zero-point terms and constant contents; a multi-subgraph model may be rejected only if a subgraph alone is, or for a sharer conflict (C15). Pairs: independent, sharing a constant buffer, equal structure with different names, insertion-heavy in both (op-id bookkeeping cross-talk), swapped order.",
+    "Assumes: pair family above x shipped + selective recipes; shared tables (buffers, opcodes) compared modulo renumbering; FlatBuffers builder intercepted.",
+    "relational symbolic execution (three runs of the real pipeline per path on shared symbolic statistics), z3 term equality",
+    'DESIGN.md 3/C19')
+
 def write():
   m = {
    'version': 1,
